@@ -30,7 +30,7 @@ EXPLANATION = (
     "NOT decided: equality of failure_cases with the set of offending cells."
 )
 LEVEL_RULE = "one obligation per handler / lazy use / validate method / fenced call"
-FLOORS = {"R1": 4, "R2": 20, "R3": 12, "R4": 6, "R5": 3, "R6": 6, "R7": 5, "R8": 1, "R9": 3, "R10": 1, "R11": 1}
+FLOORS = {"R1": 4, "R2": 20, "R3": 12, "R4": 6, "R5": 3, "R6": 6, "R7": 5, "R8": 1, "R9": 3, "R10": 1, "R11": 1, "R12": 2}
 
 EH = "pandera/api/base/error_handler.py::ErrorHandler"
 # A handler may drop the caught SchemaError only when the fenced body does nothing but expand a regex column name:
@@ -661,7 +661,45 @@ def r11_sequential_parts_both_reported(ctx):
         raise AnalysisError("no API-level validate with two sequential parts found (expected SeriesSchema.validate)")
 
 
+def r12_polars_failure_frames_same_schema(ctx):
+    """The polars report concatenates one frame per collected error.  `pl.concat` requires equal column types, so every
+    branch that builds such a frame casts `failure_case` to the common string type: a branch that keeps the raw value
+    (a scalar False for a check returning a plain bool) makes the lazy report raise polars SchemaError ("type Boolean is
+    incompatible with expected type String") as soon as another error has string failure cases."""
+    from ..util import Expander
+    f = ctx.ix.func("pandera/backends/polars/base.py::PolarsSchemaBackend.failure_cases_metadata")
+    ctx.touched(f)
+    ex = Expander(f.node)
+    appended = [c.args[0] for c in calls_in(f.node) if callee_last(c) == "append" and c.args and "failure_case" in txt(c.func.value)]
+    if not appended:
+        raise AnalysisError("polars failure_cases_metadata: no frame collection found")
+    names = {a.id for a in appended if isinstance(a, ast.Name)}
+    n = 0
+    for st in walk_no_nested(f.node):
+        if isinstance(st, ast.Assign) and any(isinstance(t, ast.Name) and t.id in names for t in st.targets):
+            casts = [c for c in ast.walk(st.value) if isinstance(c, ast.Call) and callee_last(c) == "cast"]
+            if not casts and isinstance(st.value, ast.Call):
+                # the frame is built by a private helper next to the function: its returns carry the cast
+                h = f.module.functions.get(callee_last(st.value)) or (f.cls.lookup(callee_last(st.value)) if f.cls is not None else None)
+                if h is not None and h.module is f.module:
+                    hx = Expander(h.node)
+                    casts = [c for r in walk_no_nested(h.node) if isinstance(r, ast.Return) and r.value is not None
+                             for d in hx.closure(r.value) for c in ast.walk(d) if isinstance(c, ast.Call) and callee_last(c) == "cast"]
+            if not casts:
+                continue   # an intermediate definition (the cast comes later on this path)
+            n += 1
+            keys = {k.value for c in casts for a in c.args if isinstance(a, ast.Dict) for k in a.keys if isinstance(k, ast.Constant)}
+            ok = "failure_case" in keys
+            ctx.ob("R12", f, "polars report: every per-error frame casts `failure_case` to the common string type", ok,
+                   f"cast of {sorted(keys)}" if ok else
+                   f"`{txt(st)[:70]}` casts {sorted(keys)} but not `failure_case`: a scalar failure case (False) keeps its own type and pl.concat raises a polars "
+                   "SchemaError out of the lazy report", f.loc(st))
+    if n < 2:
+        raise AnalysisError(f"polars failure_cases_metadata: casting branches found: {n}")
+
+
 def run(ctx):
+    r12_polars_failure_frames_same_schema(ctx)
     r10_collect_per_element(ctx)
     r11_sequential_parts_both_reported(ctx)
     r9_case_attribution(ctx)
